@@ -29,18 +29,21 @@ TRUSTED_BASE = [
     'modelled, not verified: asyncio scheduling (one LTS event per suspension point), echo/source port drivers',
 ]
 ASSUMPTIONS = [
-    'theorem scope: integer number ports, echo drivers and sources, no read/write transforms, no enable/disable, no API value '
-    'writes to ports with an expression, expressions assigned to ports at rest and not reading their own port; stateless, '
-    'time-independent expressions',
-    'enable/disable and write transforms are exercised by the spec oracle only (known finding: write transform without inverse)',
-    'typed stream (number / integer / boolean ports, the hub\'s own VirtualPort, unavailable values, coercion): no latencies, '
-    'commands issued at rest, expressions over lower-numbered ports only, no NaN / infinite values, no transforms; the '
+    'theorem scope: integer number ports, echo drivers and sources, no read/write transforms, no API value writes to ports with '
+    'an expression, expressions not reading their own port, ports with an expression disabled only at rest (the busy case is '
+    'known finding F16); stateless, time-independent expressions; expressions are evaluated over the snapshot of values and the '
+    'LIVE enabled flags, so AVAILABLE / DEFAULT over a disabled port are inside the theorem (it needs disable() to force '
+    'evaluation: regenerated from ports.py)',
+    'write transforms are exercised by the spec oracle only (known finding: write transform without inverse)',
+    'typed stream (number / integer / boolean ports, the hub\'s own VirtualPort, unavailable values, coercion, internal ports, '
+    'an expression assigned while a polling pass is suspended in an event handler, results the port cannot take): no latencies, '
+    'commands issued at rest, expressions over lower-numbered ports only, no NaN / infinite source values, no transforms; the '
     'specification (Expr.Spec.sem + adapt_value_type) is evaluated in Coq on the state the hub reports at rest; nothing is '
     'required when the evaluation fails with an error other than unavailability',
 ]
 
 EXPRS = ['$p{a}', 'ADD($p{a}, $p{b})', 'MUL($p{a}, 2)', 'SUB($p{a}, 1)', 'IF(GT($p{a}, 2), $p{b}, 7)', 'MIN($p{a}, $p{b})',
-         'ADD($p{a}, 1)', 'MAX($p{a}, $p{b}, 3)']
+         'ADD($p{a}, 1)', 'MAX($p{a}, $p{b}, 3)', 'DEFAULT($p{a}, 7)', 'IF(AVAILABLE($p{a}), $p{b}, 3)', 'DEFAULT($p{a}, $p{b})']
 
 
 def gen_scenario(rng, allow_extras):
@@ -503,7 +506,8 @@ LEVEL_TEXT = (
     'queued/pending evaluation, freshness of the last read value whenever the evaluation task compares against it) proved for '
     'every event gives convergence at every quiescent state reachable by ANY trace; plus re-evaluation after every dependency '
     'change and only then, and the frame property from deps_sound. Whether the evaluation task refreshes after its own write and '
-    'whether enabling a port forces a full evaluation are regenerated from ports.py/main.py on every run; the real polling loop, evaluation and write tasks are run on a virtual clock with '
+    'whether enabling and disabling a port force a full evaluation are regenerated from ports.py on every run (the theorem '
+    'needs all three); the real polling loop, evaluation and write tasks are run on a virtual clock with '
     'scripted latencies and every step they take must be accepted by the LTS; the convergence predicate is also evaluated on '
     'the implementation at quiescence.'
 )
@@ -511,8 +515,9 @@ LEVEL_NOTE = (
     'Trusted: Coq kernel incl. vm_compute; translator evalwrite.py; vloop and the instrumentation wrappers; asyncio scheduling '
     'is modelled by one LTS event per suspension point. Theorem scope is partial: integer ports, echo/source drivers, no '
     'transforms (known finding F13 lives there), ports with an expression are disabled only at rest (premise of the theorem; '
-    'the busy case is refuted in History/C01Old.v and is known finding F16), virtual/slave ports and device attributes as '
-    'dependencies are covered by the differential oracle only. '
+    'the busy case is refuted in History/C01Old.v and is known finding F16); port types other than integer, virtual ports, '
+    'unavailable values and coercion are covered by the second (typed) correspondence stream, whose specification is evaluated '
+    'in Coq (C01/RichRun.v) but is not part of the LTS theorem. '
     'No axioms (Print Assumptions: closed).'
 )
 TECHNIQUE = 'Coq proof of an inductive invariant over an LTS (any trace length/interleaving); translator + trace acceptance on a virtual clock'
